@@ -131,11 +131,16 @@ def run_proofs(root, pid, cfg, work):
         res["failed"] = required
         res["missing"] = required
         return res
-    ok, out = lake_build(root, [mod])
+    extra = list(cfg.get("extra_modules", []))
+    ok, out = lake_build(root, [mod] + extra)
     res["build_log"] = out[-6000:]
     ns = cfg.get("lean_namespace", "")
     spans = theorem_spans(path)
     declared = {n for n, _, _ in spans}
+    for em in extra:
+        ep = os.path.join(root, "lean", em.replace(".", "/") + ".lean")
+        if os.path.exists(ep):
+            declared |= {n for n, _, _ in theorem_spans(ep)}
     failed = set()
     for t in required:
         short = t.split(".")[-1]
@@ -151,6 +156,17 @@ def run_proofs(root, pid, cfg, work):
                 for t in required:
                     if t.split(".")[-1] == name:
                         failed.add(t)
+        # regenerated-fact obligations live in RefmtProofs/Facts.lean
+        facts_rel = "RefmtProofs/Facts.lean"
+        facts_err = [int(m.group(1)) for m in re.finditer(re.escape(facts_rel) + r":(\d+):\d+: error", out)]
+        if facts_err:
+            fspans = theorem_spans(os.path.join(root, "lean", facts_rel))
+            for name, s_, e_ in fspans:
+                if any(s_ <= ln <= e_ for ln in facts_err):
+                    for t in required:
+                        if t == "Refmt.Facts." + name:
+                            failed.add(t)
+                            hit = True
         if not hit:
             # the failure is in an imported module (model, lemmas or regenerated facts): nothing is established
             failed.update(required)
@@ -159,6 +175,8 @@ def run_proofs(root, pid, cfg, work):
         audit = os.path.join(work, "Audit_%s.lean" % pid)
         with open(audit, "w") as f:
             f.write("import %s\n" % mod)
+            for em in extra:
+                f.write("import %s\n" % em)
             for t in required:
                 f.write("#print axioms %s\n" % t)
         with Lock(os.path.join(root, "build", ".lakelock")):
@@ -206,13 +224,22 @@ def run_driver(root, cases_path, out_path, timeout):
                            stderr=subprocess.PIPE, timeout=timeout)
     return p.returncode
 
-def run_harness(root, cases_path, out_path, timeout, per_case_timeout=60):
+def build_harness_race(root):
+    """The same harness built with the race detector (C18)."""
+    hdir = os.path.join(root, "harness")
+    with Lock(os.path.join(root, "build", ".golock")):
+        rc, out = sh(["go", "build", "-race", "-tags", "verif", "-o", os.path.join(root, "build", "harness-race"), "."],
+                     cwd=hdir, env=GOENV, timeout=900)
+    return rc == 0, out
+
+def run_harness(root, cases_path, out_path, timeout, per_case_timeout=60, binary="harness"):
     """Run the harness; if it dies or hangs on a case, record that and resume after it."""
     lines = open(cases_path).read().splitlines()
     results = {}
     pos = 0
-    hbin = os.path.join(root, "build", "harness")
-    env = dict(os.environ, GOMEMLIMIT="6GiB", GOTRACEBACK="single", REFMT_CLI=os.path.join(root, "build", "refmt-cli"))
+    hbin = os.path.join(root, "build", binary)
+    env = dict(os.environ, GOMEMLIMIT="6GiB", GOTRACEBACK="single", REFMT_CLI=os.path.join(root, "build", "refmt-cli"),
+               GORACE="halt_on_error=1 exitcode=66")
     t_end = time.time() + timeout
     while pos < len(lines):
         chunk = lines[pos:]
@@ -274,7 +301,11 @@ def compare_stream(root, pid, stream_cfg, cases_path, work, tier):
     ipath = os.path.join(work, name + ".I")
     mpath = os.path.join(work, name + ".M")
     tmo = stream_cfg.get("timeout", 1500 if tier == "quick" else 6000)
-    run_harness(root, cases_path, ipath, tmo)
+    if stream_cfg.get("binary") == "harness-race":
+        ok, out = build_harness_race(root)
+        if not ok:
+            raise RuntimeError("race build failed: " + out[-2000:])
+    run_harness(root, cases_path, ipath, tmo, binary=stream_cfg.get("binary", "harness"))
     run_driver(root, cases_path, mpath, tmo)
     rule = props.RULES[stream_cfg.get("rule", "default")]
     stats = dict(evaluations=0, nontrivial=set(), concrete=[], corr=[], samples=[], hist={}, known={})
